@@ -8,76 +8,76 @@ EXPL = "Exploration: verdict is 'held on the executions observed'. "
 CLAIMED = {
  "C01": ("statistical runtime monitor: thousands of independent item sets per (family, configuration, path, cardinality) cell; deterministic clauses on every observation, bias / spread / coverage per cell by hypothesis tests with stated tolerances",
          EXPL + "HLL (HIP, coupon regime, composite estimator of unions), CPC (HIP, ICON of unions, CpcWrapper) and theta (exact, estimation, sampling p<1) observed at n = 0 and ~33 checkpoints up to 65536 on streamed, round-tripped and merged sketches. Unbiasedness and coverage are statements about the distribution over inputs; only a population of executions can refute them.",
-         "Tolerances are part of the claim: bias 0.08 RSE (0.15 RSE for the CPC ICON estimator, whose published polynomial is biased by ~0.09 RSE at lg_k 4) + 6 max(sd, RSE)/sqrt(T), spread 1.25 RSE, coverage nominal - (0.04, 0.025, 0.006) tested by an exact binomial tail at 1e-9; effects below them are invisible. T = 400 per cell in quick and 6000 in thorough for streams to 64k items; sketches with lg_k <= 8 additionally run 'dense' cells (streams to 128 k items, at least 4096) with up to 32 x more trials.",
-         "DESIGN.md 5 (C01)"),
+         "Tolerances are part of the claim: bias 0.08 RSE (0.15 RSE for the CPC ICON estimator, whose published polynomial is biased by ~0.09 RSE at lg_k 4) + 6 max(sd, RSE)/sqrt(T), spread 1.25 RSE, coverage nominal - (0.04, 0.025, 0.006) tested by an exact binomial tail at 1e-9; effects below them are invisible. T = 400 per cell in quick and 6000 in thorough for streams to 64k items; sketches with lg_k <= 8 additionally run 'dense' cells (streams to 128 k items, at least 4096) with up to 32 x more trials. Two deterministic clauses: merged CPC estimate vs the definition of ICON (bisection on the exact expected coupon count; 2e-5 below C = 5.6 K, 2e-3 above) and HLL interval half-width / (s x advertised RSE) in [0.93, 1.07] above lg_k 12, [0.5, 1.7] up to 12.",
+         "DESIGN.md 5 (C01) as planned, 12.1 as built"),
  "C11": ("runtime round-trip monitor: deserialize(serialize(s)) compared with s accessor by accessor, hooked state by state, byte by byte, then under identical further updates and merges",
          EXPL + "Generated states of all seven families (every HLL mode/type incl. exceptions, cur_min > 0 and out-of-order union results; compact theta incl. synthetic entry sets of every delta width 1..63 and length 0..=4100; every CPC flavor and many offsets; Bloom; Count-Min in 8 counter types; Frequent Items i64/u64/String incl. purged-empty; t-digest).",
          "Byte identity is required where the layout is canonical (not for Frequent Items item order and the HLL_4 exception list order, which follow hash-table layout; compared as decoded states). HIP after a later promotion and purge offsets after the round trip are order dependent and not compared.",
-         "DESIGN.md 5 (C11)"),
+         "DESIGN.md 5 (C11) as planned, 12.1 as built"),
  "C12": ("runtime differential monitor: every emitted image decoded by an independent spec decoder (written from the published Java/C++ layouts) and compared with the reference model of the stream",
          EXPL + "Same generated states as C11; the decoders (harness/src/spec: HLL, theta v1-v4, CPC FM85, Bloom, Count-Min, Frequent Items, t-digest) check every preamble field, flag, length and padding and return the abstract state, which must equal the model's.",
          "Trusted: my reading of the Java/C++ layouts; CPC compression tables are pinned from this commit (sha256 recorded, internal consistency self-checked at start-up). No cross-language .sk files exist in the sandbox.",
-         "DESIGN.md 5 (C12)"),
+         "DESIGN.md 5 (C12) as planned, 12.1 as built"),
  "C13": ("runtime differential monitor: images produced by independent spec encoders in every Java/C++ variant are deserialized by the library and compared with the encoded state, then united / updated / re-serialized",
          EXPL + "HLL compact and updatable forms (aux list vs aux hash table, out-of-order flag, cur_min > 0), theta serial versions 1-4 (empty, single item with/without flag, exact, estimating, ordered/unordered, Java/C++ padding), CPC all flavors with/without HIP and stale first-interesting-column, t-digest nine image classes x four encodings, Bloom dirty counts, Count-Min, Frequent Items flag conventions.",
          "Trusted: spec encoders (harness/src/spec). Variants are those I know Java/C++ to emit; no foreign files are available to confirm.",
-         "DESIGN.md 5 (C13)"),
+         "DESIGN.md 5 (C13) as planned, 12.1 as built"),
  "C14": ("runtime event monitor: panic hook + allocation monitor (refusing global allocator, alloc-error hook) around 20 deserialize entry points fed structure-aware mutations of valid images; Ok values driven through a post phase",
          EXPL + "Seeds are valid images of every family/variant/mode (library-written and spec-encoded); mutators: field-aware boundary values from the spec decoders' field maps, bit flips, byte sets, payload-word replacement, truncation at every offset, extension, splicing, random tails, random strings; run in the rel and the dbg (overflow-checks, debug-assertions) profile.",
          "Allocation is 'out of proportion' above 1 MiB + 64 bytes per input byte (plus what an Ok value retains); empty Bloom / Count-Min / Frequent-Items images may legitimately declare large tables. 'Never loops' is decided by a hang guard: a call still in flight after 20 s ends the shard with a witness, which the driver replays alone twice before reporting it; a single overrun is inconclusive.",
-         "DESIGN.md 5 (C14)"),
+         "DESIGN.md 5 (C14) as planned, 12.1 as built"),
  "C17": ("runtime event monitor: valid-use programs (the histories of the behavioural monitors plus an extremes lane at documented limits) executed under debug-assertions + overflow-checks and under release; any panic is a violation",
          EXPL + "Every debug_assert!, unreachable!, expect and arithmetic overflow in the library is armed in the dbg profile; programs include a sweep over every lg_k of HLL 4..21 / CPC 4..26 / theta 5..26 (all queries at all three standard deviations on streamed, deserialized and united sketches), the public codec helpers, HLL lg_k 4/21 with cur_min shifts and exceptions, CPC lg_k 4/21/26 incl. windowed sketches at lg_k 21, t-digest k up to 65535 and empty split lists, Count-Min totals at the counter type's maximum.",
          "Documented panics (out-of-range parameters, incompatible merges, NaN rank, unsorted splits, seeds with a zero seed hash) are excluded by construction. Paths not driven are not covered.",
-         "DESIGN.md 5 (C17)"),
+         "DESIGN.md 5 (C17) as planned, 12.1 as built"),
  "C18": ("runtime measurement monitor: serialized sizes / retained counts after every power-of-two prefix of long streams vs the bound the configuration implies; CPC size claim by a binomial test over trials",
          EXPL + "Streams of up to 2^20 (2^22 thorough) distinct / repeated / scattered items into HLL, theta, Frequent Items, Bloom, Count-Min, t-digest; CPC: trials streaming to C = 8K with the maximum image size over 80 points in C/K in [3,8] against max_serialized_bytes.",
          "HLL sizes are judged against the mode the (spec-decoded) image itself declares. CPC claim: <= 0.1% of trials + 6 sigma binomial margin, never by more than 25%.",
-         "DESIGN.md 5 (C18)"),
+         "DESIGN.md 5 (C18) as planned, 12.1 as built"),
  "C02": ("runtime reference-model monitor: Hll4/Hll6/Hll8 instances vs textbook per-slot-maximum model, state dumped through hooks after every operation; dump invariants and HIP increment law",
          EXPL + "Generated histories (crafted coupon phases reaching value 63, cur_min shifts with live aux exceptions, hashed items with duplication, permutations) are fed to the real sketches and to an exact model; the full hooked state is compared after every operation for lg_k<=8 and at checkpoints above. State equality for all streams cannot be settled by examples; comparing the whole state after every prefix of thousands of adversarial histories is the strongest oracle this family has.",
          "Trusted: the HLL model (harness/src/model/hll.rs), the reference MurmurHash3; coupons injected through the hook are assumed reachable by hashing. lg_k 13..17 (quick) / 13..21 (thorough) at checkpoints only.",
-         "DESIGN.md 5 (C02)"),
+         "DESIGN.md 5 (C02) as planned, 12.1 as built"),
  "C03": ("runtime reference-model monitor: HllUnion histories vs fold/max union model; to_sketch in all three types, gadget dump, permuted replay",
          EXPL + "Random union histories over lg_max_k x input (lg_k, type, mode, fresh/round-tripped, in-order/out-of-order) x update_value/reset; after every step the dumps of to_sketch(Hll4|6|8) and of the gadget are compared with the model, estimates and bounds must agree across types and be non-zero, and a permuted/repeated replay must give the same state.",
          "Trusted: union model in harness/src/mon/c03.rs; inputs are built through the coupon hook (hash-like coupons; a sixth of the cases plant tall registers up to 63, for which the estimate band is switched off); every to_sketch result is also round-tripped through its own image. Out-of-order inputs come from helper unions, spec-encoded OOO images are covered by C13.",
-         "DESIGN.md 5 (C03)"),
+         "DESIGN.md 5 (C03) as planned, 12.1 as built"),
  "C04": ("runtime reference-model monitor: theta KMV model (set of offered hashes below theta) vs iter()/num_retained/theta after every operation",
          EXPL + "Histories of update / adversarial hash injection (probe-colliding families, theta+-1, 0, MAX) / trim / reset / compact over lg_k, resize factor, sampling p and seed; cheap invariants after every operation and full entry-set comparison at every change.",
          "Trusted: KMV model in harness/src/mon/c04.rs and the reference MurmurHash3; injected hashes go through a hook that repeats the library's screen (the screen inside update() itself is exercised by the public lane only).",
-         "DESIGN.md 5 (C04)"),
+         "DESIGN.md 5 (C04) as planned, 12.1 as built"),
  "C05": ("runtime reference-model monitor: CPC bit-matrix model vs hooked matrix, own reconstruction from window+table, validate(), offset/flavor/table/first_interesting_column invariants, KxP and HIP recurrences",
          EXPL + "The complete natural arrival order of novel coupons (the exact law of a hashed stream) drives each sketch through all five flavors and window offsets 1..56 with every 8th-shift KxP refresh, optionally perturbed (planted surprising ones, delayed surprising zeros, duplicates) inside a stated envelope; hashed public lane in addition.",
          "Trusted: CPC model (harness/src/model/cpc.rs). Perturbed streams stay inside the envelope of DESIGN.md 2.2. lg_k 13..17 (quick) / 13..22 (thorough) as one hook lane to C = 4.5 K and one public lane each.",
-         "DESIGN.md 5 (C05)"),
+         "DESIGN.md 5 (C05) as planned, 12.1 as built"),
  "C06": ("runtime reference-model monitor: CpcUnion histories vs OR-of-folded-matrices model, all C05 invariants on every result, CpcWrapper agreement, permuted replay",
          EXPL + "Random union histories over union lg_k x inputs of every flavor (exact coupon counts, boundaries favoured), fresh / deserialized / union results; to_sketch after every step.",
          "Trusted: fold/OR model in harness/src/mon/c06.rs; the ICON estimate itself is only cross-checked against CpcWrapper (its accuracy is C01's).",
-         "DESIGN.md 5 (C06)"),
+         "DESIGN.md 5 (C06) as planned, 12.1 as built"),
  "C07": ("runtime reference-model monitor: exact frequency map vs bounds of every item of the domain at every purge, merge and checkpoint; frequent_items lists vs truth",
          EXPL + "Weighted streams of six shapes (incl. all-equal weights that make a purge remove every counter) into 1..5 sketches of equal or different sizes, item types i64/u64/String, optional round trips, random merge order with further updates.",
          "Trusted: exact HashMap model; domain <= 4096 items so that every item (seen or not) is checked.",
-         "DESIGN.md 5 (C07)"),
+         "DESIGN.md 5 (C07) as planned, 12.1 as built"),
  "C08": ("runtime reference-model monitor: exact counter-table model (documented bucket rule with reference hashes) vs table parsed from the image; one-sided guarantee for every item; tail clause by binomial test",
          EXPL + "Histories of update / merge / halve / decay / round trip over num_hashes x num_buckets x seeds x all 8 counter types, including histories in the upper half of the counter range.",
          "Trusted: table model and reference MurmurHash3; image layout (16-byte preamble, total, row-major counters) as decoded by the harness.",
-         "DESIGN.md 5 (C08)"),
+         "DESIGN.md 5 (C08) as planned, 12.1 as built"),
  "C09": ("runtime reference-model monitor: reference-position bit-array model (XXH64) vs bit array parsed from the image; membership of inserted and arbitrary items; measured fpp of with_accuracy cells",
          EXPL + "Histories of insert / contains_and_insert / union / intersect / invert / reset / round trip on filters of 1..65536 bits (non-multiples of 64 included), 1..16 hashes, six item kinds with assorted write patterns, with a compatible partner.",
          "Trusted: bit model and reference XXH64; fpp clause is statistical (mean over >= 20 filters, 1.3p + 6 sigma).",
-         "DESIGN.md 5 (C09)"),
+         "DESIGN.md 5 (C09) as planned, 12.1 as built"),
  "C10": ("runtime invariant monitor over dense query grids: monotonicity / range / cdf-pmf-rank consistency / rank(quantile(q)) resolution on TDigestMut and TDigest, for streamed, merged, frozen, round-tripped digests and digests deserialized from spec-encoded images",
          EXPL + "Universal shape-of-answer statements are checked on grids of q and v (centroid means +-1ulp, midpoints, extremes, outside) at checkpoints of generated histories and on synthetic images of nine classes in four encodings.",
          "Trusted: t-digest spec codec (harness/src/spec/tdigest.rs) used to read the centroid list and to encode synthetic images; float slack 1e-12 relative on monotonicity; resolution tolerance stated in DESIGN.md.",
-         "DESIGN.md 5 (C10)"),
+         "DESIGN.md 5 (C10) as planned, 12.1 as built"),
  "C15": ("runtime monitor against exact sorted data: centroid count / image size / weight sum / order, and rank error vs the exact empirical distribution within 3 x the k2-scale resolution (12 x (q(1-q)/k + 1/n) on smooth distributions, one sample at untied extremes), first query taken before anything flushes the buffer",
          EXPL + "Streams of 17 shapes up to 1e5 (1e6 thorough) values in generated / ascending / descending arrival order, streamed with checkpoints or split over merge trees of 2..16 digests, k in {10, 11, 12, 15, 29, 30, 50, 100, 200, 500}; one small-k long sorted stream per shard.",
          "Trusted: exact sorted data, spec decoder. Two extreme-dynamic-range shapes are listed as open known findings (known_findings.json); every other shape is held to the clause.",
-         "DESIGN.md 5 (C15)"),
+         "DESIGN.md 5 (C15) as planned, 12.1 as built"),
  "C16": ("runtime differential monitor: library hashers and derived slot/row/bucket values vs independent reference hashes over generated (bytes, seed, chunking) cases",
          EXPL + "Every (byte string, seed, chunking) fed to the crate's streaming MurmurHash3/XXH64 is compared with an independent one-shot reference digest; chunkings are exhaustive for n<=12 and sampled above; derived quantities are observed through the public API/hooks for 15 item types.",
          "Trusted: the reference hashes in harness/src/refhash.rs (self-tested against published vectors at start-up) and the recording hasher. Lengths above 200 bytes are not driven.",
-         "DESIGN.md 5 (C16)"),
+         "DESIGN.md 5 (C16) as planned, 12.1 as built"),
 }
 PENDING_REASON = "monitor not built yet in this round (see DESIGN.md section 11 build order); not claimed until its check exists and is silent"
 
